@@ -30,7 +30,8 @@ ASSUMPTIONS = [
 FLOORS = {'cyclic_cases': 100, 'acyclic_cases': 100, 'failure_cases': 100,
           'budget_armed': 200, 'evaluate_entries_seen': 1000,
           'deep_chain_cases': 6, 'derived_models': 50,
-          'absolute_cycles': 60, 'linked_workbook_cases': 8}
+          'absolute_cycles': 60, 'linked_workbook_cases': 8,
+          'long_cycles': 10, 'percent_in_cycle': 30}
 ANCHOR_FUNCS = {
     'xlcalculator/evaluator.py': ['Evaluator.evaluate',
                                   'EvaluatorContext.eval_cell'],
@@ -60,7 +61,8 @@ def plus(*xs):
 ONE = ('lit', 1, '1')
 
 
-def cycle_graph(length, tail, closing, sheets, absolute='none'):
+def cycle_graph(length, tail, closing, sheets, absolute='none',
+                addend=None):
     """cells in column A; the cycle is rows tail+1 .. tail+length, the tail
     rows 1..tail lead into it.  absolute: how every reference is spelt
     (A1, $A$1, $A1, A$1).  -> (cells, names, start key, n cells)"""
@@ -91,7 +93,7 @@ def cycle_graph(length, tail, closing, sheets, absolute='none'):
             elif closing == 'name':
                 names['CYC'] = ('ref', sn, 1, nxt, True, True)
                 target = ('name', 'CYC')
-        cells[(s, 1, i)] = ('f', plus(target, ONE))
+        cells[(s, 1, i)] = ('f', plus(target, addend or ONE))
     return cells, names, (s_of(1), 1, 1), total
 
 
@@ -234,8 +236,15 @@ def run(ctx):
                     absolute = ['none', 'all', 'col', 'row', 'none', 'all'][
                         work % 6] if not thorough else rng.choice(
                             ['none', 'all', 'col', 'row'])
+                    # a percent sign / a text with one in the formulas the
+                    # report travels through
+                    addend = [None, ('lit', 0.5, '50%'), None,
+                              ('call', 'LEN', [('lit', '100%d', '"100%d"')])][
+                                  (work // 6) % 4]
+                    if addend is not None:
+                        ctx.event('percent_in_cycle')
                     cells, names, start, total = cycle_graph(
-                        length, tail, closing, sheets, absolute)
+                        length, tail, closing, sheets, absolute, addend)
                     ctx.event('absolute_cycles' if absolute != 'none'
                               else 'relative_cycles')
                     desc = (f'cycle length {length}, tail {tail}, closed by '
@@ -265,6 +274,26 @@ def run(ctx):
                         judge_cyclic(desc + ' entered mid-cycle',
                                      ('cycle-mid', length, tail, closing,
                                       len(sheets)), wb, model, mid, total)
+
+    # ---- long cycles (the chain back to the start is longer than any small
+    # window of "recently entered" cells) ------------------------------------
+    for length in (64, 65, 66, 100, 150):
+        for tail in (0, 3):
+            for closing in ('ref', 'range'):
+                if not mine():
+                    continue
+                cells, names, start, total = cycle_graph(
+                    length, tail, closing, ['Sheet1'])
+                desc = (f'cycle length {length}, tail {tail}, closed by '
+                        f'{closing}')
+                wb, model = C.build(cells, names, 'dict', derive=False)
+                ctx.event('long_cycles')
+                judge_cyclic(desc, ('long-cycle', length, tail, closing), wb,
+                             model, start, total)
+                mid = ('Sheet1', 1, tail + length // 2)
+                judge_cyclic(desc + ' entered mid-cycle',
+                             ('long-cycle-mid', length, tail, closing), wb,
+                             model, mid, total)
 
     # ---- acyclic decoys -------------------------------------------------------
     def decoys():
@@ -457,9 +486,13 @@ def run(ctx):
                                      nxt[3], (False,) * 4), ONE])
         if style == 'neg':
             return ('neg', nxt)
+        if style == 'percent':
+            return ('bin', '*', nxt, ('lit', 0.5, '50%'))
+        if style == 'percent-text':
+            return ('bin', '&', nxt, ('lit', '%s 100%', '"%s 100%"'))
         raise ValueError(style)
     styles = ['plus', 'if', 'if-cond', 'not', 'and', 'or', 'sum', 'range',
-              'neg']
+              'neg', 'percent', 'percent-text']
     stop_growing = set()
     for length in (5, 10, 15, 20, 25, 30, 40, 50, 60):
         depths = sorted({1, 2, length // 2, length - 1, length}
